@@ -28,7 +28,7 @@ class RawPeer(object):
         from rpyc.core.channel import Channel
         self.a, self.b = simnet.SimStream.pair("real", "raw")
         self.service = service
-        self.conn = service._connect(Channel(self.a, compress), dict(config or {})) if connect else None
+        self.conn = service._connect(Channel(self.a, compress), config if config is not None else {}) if connect else None   # the caller's dict, as given
         self.seq = 1000
         self.buf = bytearray()
         self.incoming = []
